@@ -20,7 +20,7 @@ EXPLANATION = (
     'doc_close evaluated: one forwarded open / close of the requested document, failure reported. (R6) the drop handler '
     'evaluated on {not open, 1, 2, 5 handles} against a store that refuses while the document is open: a refused drop '
     'leaves the handle count untouched. (R7) reply streams accepted before the actor stops are driven to their end before '
-    'anything is aborted (reports F25, known finding). NOT decided: behaviour with several concurrent clients beyond the '
+    'anything is aborted (reports F25, known finding). (R8) every per-document request of the store actor and every SyncHandle method (the store-actor handler evaluated with the fields of the request as named tokens and gates / store / replica calls answered by an oracle, each step also failing in turn: the own fields of the request reach the core function in order on the addressed document, nothing is carried out after a failed step, the reply is the result of that function; the SyncHandle method evaluated: one request of its own kind, addressed to its namespace argument, each field one of its own parameters, the reply of the actor returned). NOT decided: behaviour with several concurrent clients beyond the '
     'single-consumer loop.'
 )
 ASSUMPTIONS = ["the action loop is the only consumer of the action channel", "tracing macro expansions are effect-free"]
@@ -486,6 +486,15 @@ def r7(ctx):
     ctx.floor("C14.R7", 1)
 
 
+def r8(ctx):
+    """"through the asynchronous store handle": every per-document request is carried out on the addressed document behind
+    its gate, with the own fields of the request, and answered with the result; every handle method sends the request it names"""
+    from . import actorfw
+    actorfw.claim(ctx, "C14.R8", handlers=tuple(actorfw.SPEC), clients=("insert_remote", "sync_process_message", "sync_initial_message", "insert_local", "delete_prefix", "get_exact", "get_many",
+                  "has_news_for_us", "set_download_policy", "get_download_policy", "register_useful_peer", "get_sync_peers", "subscribe", "unsubscribe", "set_sync", "get_state", "open", "close",
+                  "drop_replica", "export_secret_key"), floor=60)
+
+
 def run(ctx):
     ctx.run_rule("C14.R1", r1)
     ctx.run_rule("C14.R2", r2)
@@ -494,3 +503,4 @@ def run(ctx):
     ctx.run_rule("C14.R5", r5)
     ctx.run_rule("C14.R6", r6)
     ctx.run_rule("C14.R7", r7)
+    ctx.run_rule("C14.R8", r8)
